@@ -5,6 +5,7 @@ counter returns to its starting value) is C04 (`live_zero_at_end`), that the sin
 kernel/cry.cpp and checked on the real code after every operation of every history by the harness (hook H3).
 -/
 import Wencry.Model.Proc
+import Wencry.Model.Pipe
 import Wencry.Proofs.GetoptCorrect
 namespace Wencry.Props.C15
 open Wencry Wencry.Model.Proc
@@ -65,5 +66,24 @@ theorem command_line_history_equals_fresh (env : Env) (g : GState) (hist : List 
 example : (getVOptArgv resetFixed ⟨[], []⟩ GState.fresh [[87], [45, 101, 100, 118]]).2 = ⟨1, [118]⟩ := by decide
 
 end getopt
+
+/-! ### Why the singleton must be deleted: a pipeline run on a stale buffer group (kernel-checked instance)
+
+`get_instance()` hands back the old group when `del_instance()` was skipped; its `over` flag is still true, so no chunk is ever
+loaded: every buffer is retired at once and the run "succeeds" with an empty body. (This is what `Res.stale` in Model/Proc.lean
+stands for; seeded defect C15-r4 produced exactly this on the real code after an encryption that failed on a full disk.) -/
+section stale
+open Wencry.Model.Pipe Wencry.Model.IoBuffer
+
+theorem stale_singleton_yields_an_empty_body :
+    let inp : Input := fun p => if p = 0 then ([Block.zero, Block.zero], .full) else if p = 1 then ([Block.zero], .final) else ([], .nodata)
+    let rr := (List.replicate 60 [none, some 0, some 1]).flatten
+    let fresh := runSched toyF inp true 2 (init 2 (fun _ => 0)) rr
+    let stale := runSched toyF inp true 2 { init 2 (fun _ => 0) with over := true } rr
+    (fresh.iopc = .done ∧ fresh.out = seqOut toyF inp true 2 (fun _ => 0) 2 ∧ fresh.out.length = 48) ∧
+    (stale.iopc = .done ∧ stale.wpc 0 = .done ∧ stale.wpc 1 = .done ∧ stale.out = [] ∧ stale.pos = 0) := by
+  decide +kernel
+
+end stale
 
 end Wencry.Props.C15
